@@ -25,9 +25,14 @@ for p in props:
         # metadata only: read the MANIFEST literal without importing pydbml
         import ast
         tree = ast.parse(src)
+        level = None
         for node in tree.body:
             if isinstance(node, ast.Assign) and getattr(node.targets[0], 'id', None) == 'MANIFEST':
                 meta = ast.literal_eval(node.value)
+            if isinstance(node, ast.Assign) and getattr(node.targets[0], 'id', None) == 'LEVEL':
+                level = ast.literal_eval(node.value)
+        if meta is not None and level:
+            meta['category'] = level       # the evidence level and the claimed category are the same thing
     if meta is None:
         na.append({'property_id': pid, 'reason': 'check not built yet in this round (planned, see DESIGN.md section 3)'})
         continue
